@@ -31,17 +31,30 @@ DIMS = {
     'contribs': [['abs'], ['abs', 'ray'], ['ray', 'abs']],
     'path': ['old', 'new'],
     'ngauss': [2, 3],
+    # second molecule tabulated on its own, coarser and shifted wavenumber grid
+    'grids': ['same', 'different'],
 }
 MAGS = {'thin': (1e-33, None), 'tau1': (1e-27, None), 'mixed': (1.0, [1e-33, 1e-27, 1e-24, 1e-18]),
         'sat': (1e-18, None)}
+
+
+WN2 = [800.0, 2300.0, 4300.0]
 
 
 def base_tables(case):
     mag, per = MAGS[case['mag']]
     tabs = {}
     for mol, f in (('H2O', 1.0), ('CH4', 0.37)):
-        tabs[mol] = fx.table(3, 3, 4, 1.0, salt=('c20', mol), pattern='generic', per_wn=per) * mag * f
+        if mol == 'CH4' and case.get('grids') == 'different':
+            per2 = None if per is None else [per[0], per[2], per[3]]
+            tabs[mol] = fx.table(3, 3, 3, 1.0, salt=('c20', mol, 'g2'), pattern='generic', per_wn=per2) * mag * f
+        else:
+            tabs[mol] = fx.table(3, 3, 4, 1.0, salt=('c20', mol), pattern='generic', per_wn=per) * mag * f
     return tabs
+
+
+def grid_of(case, mol):
+    return WN2 if (mol == 'CH4' and case.get('grids') == 'different') else WN
 
 
 def gmult(case):
@@ -64,11 +77,20 @@ def run(case, ktab):
     tabs = base_tables(case)
     if ktab:
         k = dict((mol, t[..., None] * gmult(case)[None, None, None, :]) for mol, t in tabs.items())
-        fx.install_ktables(k, case['gw'], WN, TG, PG)
+        from taurex.cache import GlobalCache
+        from taurex.cache.ktablecache import KTableCache
+        import os
+        d = fx.fresh_dir('ktables')
+        for mol, kk in k.items():
+            fx.write_pickle_ktable(os.path.join(d, '%s.pickle' % mol), mol, grid_of(case, mol), TG, PG, kk, case['gw'])
+        GlobalCache()['xsec_interpolation'] = 'linear'
+        GlobalCache()['opacity_method'] = 'ktables'
+        KTableCache().set_ktable_path(d)
+        KTableCache().clear_cache()
         tabs = k
     else:
         for mol, t in tabs.items():
-            OpacityCache().add_opacity(fx.TinyOp(mol, WN, TG, PG, t))
+            OpacityCache().add_opacity(fx.TinyOp(mol, grid_of(case, mol), TG, PG, t))
     m = fx.build_model(spec_of(case))
     grid, spec, trans, _ = m.model()
     return m, np.asarray(grid, float), np.asarray(spec, float), np.asarray(trans, float), tabs
@@ -93,7 +115,11 @@ def case_fn(case):
     for mol in mk.chemistry.activeGases:
         chi = np.asarray(mk.chemistry.get_gas_mix_profile(mol), float)
         for k in range(N):
-            sig_g[k] += opac.interp_opacity(ktabs[mol], TG, PG, T[k], P[k], 'linear') * chi[k]
+            o = opac.interp_opacity(ktabs[mol], TG, PG, T[k], P[k], 'linear')
+            gm = np.array(grid_of(case, mol))
+            if len(gm) != len(wn) or np.any(gm != wn):
+                o = np.array([np.interp(wn, gm, o[:, g]) for g in range(o.shape[1])]).T
+            sig_g[k] += o * chi[k]
     sig_o = np.zeros((N, len(wn)))
     if 'ray' in case['contribs']:
         for g in list(mk.chemistry.activeGases) + list(mk.chemistry.inactiveGases):
